@@ -1,6 +1,6 @@
 """C11 property-level bounded stand-in: the Clafer export, interpreted by an independent interpreter of the emitted Clafer
 subset (group keywords xor / or / mux / a..b, '?' optionality, top-level [constraints]) over all 2^n selections."""
-import re
+import re, copy
 from standin.props.roundtrip import *
 from flamapy.metamodels.fm_metamodel.transformations import ClaferWriter
 
@@ -224,10 +224,19 @@ def main():
     run = Run('C11')
     quick = run.scope == 'quick'
     rng = run.rng
-    for k in range(400 if quick else 5000):
-        d = clafer_fragment(rng, rng.randint(1, 9))
+    stars = [d for d in star_models() if all(len(f.get('relations', [])) <= 1 for f, _, _ in d_features(d))]
+    n_plain = 400 if quick else 5000
+    for k in range(n_plain + len(stars)):
+        star = k >= n_plain
+        if star:
+            # a group with the unbounded maximum '*' (known finding): no constraints, no renaming
+            d = copy.deepcopy(stars[k - n_plain])
+            k = 2
+        else:
+            d = clafer_fragment(rng, rng.randint(1, 9))
         names = [f['name'] for f, _, _ in d_features(d)]
-        d['ctcs'] = [{'name': f'c{i}', 'ast': M.random_ctc(rng, names, 2)} for i in range(rng.choice([0, 1, 2]))]
+        if not star:
+            d['ctcs'] = [{'name': f'c{i}', 'ast': M.random_ctc(rng, names, 2)} for i in range(rng.choice([0, 1, 2]))]
         if k % 3 == 0:
             d = with_hostile_names(d, rng, ['my root', 'a-b', 'x y', 'Ünï', 'p q r', 'A AND B', 'k.l'[:1] + 'l', 'NOT x'])
             names = [f['name'] for f, _, _ in d_features(d)]
@@ -236,7 +245,7 @@ def main():
             d = with_wordy_names(d, rng)
             names = [f['name'] for f, _, _ in d_features(d)]
         key = str(k)
-        kn = known_clafer(d)
+        kn = UNBOUNDED if star else known_clafer(d)
         exp = set(d_valid_configs(d, with_ctcs=True))
         try:
             text = ClaferWriter(None, M.build_model(d)).transform()
